@@ -83,8 +83,17 @@ int xv_parser_ran, xv_parser_rv, xv_parser_calls, xv_proto_sel;
                       (__CPROVER_return_value == 0 || __CPROVER_return_value == -1))
 XV_PARSER_CONTRACT(xcm_addr_parse_tcp, 0, struct xcm_addr_host *, host, uint16_t *, port);
 XV_PARSER_CONTRACT(xcm_addr_parse_btcp, 1, struct xcm_addr_host *, host, uint16_t *, port);
-XV_PARSER_CONTRACT(xcm_addr_parse_ux, 2, char *, name, size_t, capacity);
-XV_PARSER_CONTRACT(xcm_addr_parse_uxf, 3, char *, name, size_t, capacity);
+/* the UX/UXF parsers are asked with room for every valid name (UX_NAME_MAX characters + NUL), so the verdict never depends on the checker's own buffer */
+#define XV_UX_PARSER_CONTRACT(fn, idx) \
+    int fn(const char *addr_s, char *name, size_t capacity) \
+    __CPROVER_requires(capacity >= UX_NAME_MAX + 1 && __CPROVER_w_ok(name, capacity)) \
+    __CPROVER_assigns(xv_errno, xv_parser_ran, xv_parser_rv, xv_parser_calls) \
+    __CPROVER_ensures(xv_parser_ran == (idx) && xv_parser_calls == __CPROVER_old(xv_parser_calls) + 1 && xv_parser_rv == __CPROVER_return_value && \
+                      (__CPROVER_return_value == 0 || __CPROVER_return_value == -1))
+/* PO[C12] is_valid_addr.ux_verdict_independent_of_scratch_buffer (precondition of the replaced parser, checked at the call) */
+XV_UX_PARSER_CONTRACT(xcm_addr_parse_ux, 2);
+/* PO[C12] is_valid_addr.uxf_verdict_independent_of_scratch_buffer (precondition of the replaced parser, checked at the call) */
+XV_UX_PARSER_CONTRACT(xcm_addr_parse_uxf, 3);
 XV_PARSER_CONTRACT(xcm_addr_parse_utls, 4, struct xcm_addr_host *, host, uint16_t *, port);
 XV_PARSER_CONTRACT(xcm_addr_parse_tls, 5, struct xcm_addr_host *, host, uint16_t *, port);
 XV_PARSER_CONTRACT(xcm_addr_parse_btls, 6, struct xcm_addr_host *, host, uint16_t *, port);
